@@ -232,6 +232,87 @@ theorem req_decoded_has_meaning_partial (b : Bytes) (v : Request) (h : Request.d
   let ⟨hd, _⟩ := Request.decode_inv h
   hd.sem_isSome (hd.payloadOk ht)
 
+/-! ### re-encodability of decoded requests, exactly -/
+
+/-- the decoder never returns a write-multiple-coils value whose packed size does not fit the one-byte count
+    field: quantities above 2040 are refused (`Err(ByteCount)`), whatever data follows -/
+theorem req_decoded_qty_bound (b : Bytes) (a : UInt16) (c : Coils)
+    (h : Request.decode b = .ok (.writeMultipleCoils a c)) : packedCoilsLen c.quantity ≤ 255 := by
+  obtain ⟨hd, _⟩ := Request.decode_inv h
+  cases hd with
+  | writeMultipleCoils a q h0 hq hl h255 => exact h255
+
+/-- **the accepted requests that cannot be encoded again are EXACTLY the truncated ones** (open finding D5b).
+    Before the decoder bounded the quantity there was a second class: quantities above 2040 with enough
+    data bytes — accepted, coherent, but refused by the encoder. -/
+theorem req_decoded_encodes_iff (b : Bytes) (v : Request) (h : Request.decode b = .ok v) :
+    ReqEncodes v ↔ ¬ WmcTruncated b := by
+  obtain ⟨hd, hh⟩ := Request.decode_inv h
+  constructor
+  · rintro ⟨n, _, _, henc⟩
+    have he := henc (List.replicate n 0)
+    rw [if_neg (by simp)] at he
+    have hE := Request.encodable_of_ok v _ _ he
+    apply hd.not_truncated hh
+    cases hd with
+    | writeMultipleCoils a q h0 hq hl h255 => exact hE.2
+    | writeMultipleRegisters a q data h1 h2 => show q.toNat * 2 ≤ data.length; omega
+    | readWriteMultipleRegisters ra rq wa q data h1 h2 => show q.toNat * 2 ≤ data.length; omega
+    | _ => trivial
+  · intro ht
+    have he := hd.encodable_of_payloadOk (hd.payloadOk ht)
+    exact ⟨_, Request.pduLen_eq v he, rfl, fun buf => Request.encode_eq v buf he⟩
+
+/-- **unconditional re-encoding** outside the truncated class: the decoded value has a PDU length `n`,
+    encodes into EVERY buffer of at least `n` bytes (a shorter one is refused with `BufferSize`), and the `n`
+    bytes written decode to a value with the same meaning -/
+theorem req_decoded_reencodes (b : Bytes) (v : Request) (h : Request.decode b = .ok v) (ht : ¬ WmcTruncated b) :
+    ∃ n, v.pduLen = .ok n ∧
+      (∀ buf : Bytes, buf.length < n → v.encode buf = .err .bufferSize) ∧
+      ∀ buf : Bytes, n ≤ buf.length →
+        ∃ out v', v.encode buf = .ok (n, out) ∧ out.drop n = buf.drop n ∧
+          Request.decode (out.take n) = .ok v' ∧ v'.sem = v.sem ∧ v.sem.isSome = true := by
+  obtain ⟨hd, _⟩ := Request.decode_inv h
+  have hp := hd.payloadOk ht
+  have he := hd.encodable_of_payloadOk hp
+  refine ⟨v.image.length, Request.pduLen_eq v he, fun buf hb => ?_, fun buf hb => ?_⟩
+  · rw [Request.encode_eq v buf he, if_pos hb]
+  · obtain ⟨v', hd', hs'⟩ := hd.redecode he
+    refine ⟨v.image ++ buf.drop v.image.length, v', ?_, ?_, ?_, hs', hd.sem_isSome hp⟩
+    · rw [Request.encode_eq v buf he, if_neg (by omega)]
+    · rw [List.drop_left' rfl]
+    · rw [take_image]; exact hd'
+
+/-- 2048 coils with byte count 0xFF followed by 256 data bytes (any contents): refused with
+    `Err(ByteCount(0xFF))` — before the fix this was accepted and gave a value `encode` refuses -/
+example (x : UInt8) :
+    Request.decode ([0x0F, 0x00, 0x00, 0x08, 0x00, 0xFF] ++ List.replicate 256 x) = .err (.byteCount 0xFF) :=
+  Request.decode_wmc_bytes_big 0x00 0x00 0x08 0x00 0xFF _ (by decide)
+
+/-- the hypotheses of `req_decoded_reencodes` / both sides of `req_decoded_encodes_iff` on concrete inputs:
+    a dirty-padding request re-encodes (to clean bytes); the truncated one does not -/
+example : Request.decode [0x0F, 0x00, 0x01, 0x00, 0x03, 0x01, 0xFF] = .ok (.writeMultipleCoils 1 ⟨[0xFF], 3⟩) ∧
+    ¬ WmcTruncated [0x0F, 0x00, 0x01, 0x00, 0x03, 0x01, 0xFF] ∧
+    (Request.writeMultipleCoils 1 ⟨[0xFF], 3⟩).encode (List.replicate 7 0) =
+      .ok (7, [0x0F, 0x00, 0x01, 0x00, 0x03, 0x01, 0x07]) ∧
+    Request.decode [0x0F, 0x00, 0x01, 0x00, 0x03, 0x01, 0x07] = .ok (.writeMultipleCoils 1 ⟨[0x07], 3⟩) ∧
+    (Request.writeMultipleCoils 1 ⟨[0x07], 3⟩).sem = (Request.writeMultipleCoils 1 ⟨[0xFF], 3⟩).sem := by
+  refine ⟨by decide +kernel, by decide +kernel, by decide +kernel, by decide +kernel, by decide +kernel⟩
+
+example : Request.decode [0x0F, 0x33, 0x11, 0x00, 0x04, 0x00] = .ok (.writeMultipleCoils 0x3311 ⟨[], 4⟩) ∧
+    WmcTruncated [0x0F, 0x33, 0x11, 0x00, 0x04, 0x00] ∧ ¬ ReqEncodes (.writeMultipleCoils 0x3311 ⟨[], 4⟩) := by
+  have hdec : Request.decode [0x0F, 0x33, 0x11, 0x00, 0x04, 0x00] = .ok (.writeMultipleCoils 0x3311 ⟨[], 4⟩) := by
+    decide +kernel
+  have htr : WmcTruncated [0x0F, 0x33, 0x11, 0x00, 0x04, 0x00] := by decide +kernel
+  exact ⟨hdec, htr, fun he => (req_decoded_encodes_iff _ _ hdec).mp he htr⟩
+
+/-- Read Exception Status is a decoded kind like the fixed-layout ones: coherent, re-encodes to itself -/
+example : Response.decode [0x07, 0x6D] = .ok (.readExceptionStatus 0x6D) ∧
+    RspCoherent (.readExceptionStatus 0x6D) ∧ RspEncodes (.readExceptionStatus 0x6D) ∧
+    Response.decode (Response.readExceptionStatus 0x6D).image = .ok (.readExceptionStatus 0x6D) :=
+  have h : Response.decode [0x07, 0x6D] = .ok (.readExceptionStatus 0x6D) := by decide +kernel
+  ⟨h, rsp_decoded_coherent _ _ h, rsp_decoded_encodes _ _ h, (rsp_redecode_exact _ _ h).1⟩
+
 /-! ### the defect witness (open finding D5b) -/
 
 /-- the byte string the crate's own unit test asserts is accepted: quantity 4, byte count 0, no data -/
